@@ -369,8 +369,24 @@ Definition chk_C09 (c : chain_case) (o : op) (ok : bool) (prev cur : val) : list
           match balance_of c prev sender lp, balance_of c cur sender lp with
           | Some b0, Some b1 =>
               let got := b1 - b0 in
+              let gain a := match balance_of c prev a lp, balance_of c cur a lp with Some x, Some y => y - x | _, _ => 0 end in
+              let coll := vgetS (vnth 1 (vnth 0 (vnth 6 prev))) in      (* the configured fee collector *)
+              let others := filter (fun a => negb (String.eqb a sender) && negb (String.eqb a coll)) (cc_addrs c) in
+              (* owners of farms on this LP denom (whether or not they are active now) *)
+              let owners := filter (fun a => existsb (fun f => String.eqb (vgetS (vnth 2 f)) lp && String.eqb (vgetS (vnth 1 f)) a)
+                                                     (snap_farms prev)) others in
+              let shares := filter (fun g => 0 <? g) (map gain owners) in
               if (amt - amt * 9 / 10 <=? got) && (got <=? amt) &&
-                 (match em with Some true => true | _ => got =? amt end) then [] else [9]
+                 (match em with Some true => true | _ => got =? amt end) &&
+                 (* the penalty goes to the fee collector and to owners of farms on this LP denom only, in EQUAL shares per
+                    distinct owner, and nobody loses anything; what leaves the farm manager is at most the recorded amount *)
+                 forallb (fun a => (0 <=? gain a) &&
+                                   ((gain a =? 0) || existsb (String.eqb a) owners)) others &&
+                 (match shares with [] => true | g0 :: r => forallb (fun g => g =? g0) r end) &&
+                 (0 <=? gain coll) && (- gain FM <=? amt) &&
+                 (String.eqb coll sender || String.eqb coll FM ||
+                  (got + fold_left (fun acc a => acc + gain a) others 0 + gain coll =? - gain FM))
+              then [] else [9]
           | _, _ => []
           end
       | None => [9]
@@ -470,7 +486,8 @@ Definition chk_C16c (c : chain_case) (o : op) (ok : bool) (prev cur : val) : lis
 Definition mon_C16c (c : chain_case) (obs : val) : list Z := (mon_C16 c obs ++ mon_steps chk_C16c c obs)%list.
 
 (* C14: an accepted single-asset deposit went to a two-asset pool with both reserves non-zero, and when it locks into an
-   existing position that position belongs to the sender *)
+   existing position that position belongs to the sender; the positions it creates or changes are the sender's, and a
+   requested lock produces one *)
 Definition chk_C14s (c : chain_case) (o : op) (ok : bool) (prev cur : val) : list Z :=
   if negb ok then [] else
   match o with
@@ -484,7 +501,17 @@ Definition chk_C14s (c : chain_case) (o : op) (ok : bool) (prev cur : val) : lis
               if Nat.eqb (List.length assets) 2 && forallb (fun a => 0 <? snd a) assets &&
                  (match u, lid with
                   | Some _, Some id => match find_position prev id with Some q => String.eqb (position_owner q) sender | None => true end
-                  | _, _ => true end)
+                  | _, _ => true end) &&
+                 (* locked for the sender and for nobody else: every position created or changed by the transaction is the
+                    sender's, and when a lock was asked for there is one *)
+                 (String.eqb sender PM ||
+                  (forallb (fun q => String.eqb (position_owner q) sender ||
+                                     existsb (fun q0 => val_eqb q q0) (snap_positions prev)) (snap_positions cur) &&
+                   match u with
+                   | Some _ => existsb (fun q => String.eqb (position_owner q) sender &&
+                                                 negb (existsb (fun q0 => val_eqb q q0) (snap_positions prev))) (snap_positions cur)
+                   | None => true
+                   end))
               then [] else [14]
           | None => [14]
           end
